@@ -3,6 +3,7 @@ package message
 import (
 	"database/sql"
 	"fmt"
+	"log"
 	"math"
 	"net"
 	"sort"
@@ -18,12 +19,14 @@ import (
 
 // ===== FETCH =====
 
-// HandleFetchForUIDs handles FETCH for a list of UIDs (used by UID FETCH command)
-func HandleFetchForUIDs(deps ServerDeps, conn net.Conn, tag string, uids []int, items string, state *models.ClientState) {
+// HandleFetchForUIDs handles FETCH for a list of UIDs (used by UID FETCH command).
+// It returns an error when the data of a message cannot be read; the caller
+// answers the command with NO.
+func HandleFetchForUIDs(deps ServerDeps, conn net.Conn, tag string, uids []int, items string, state *models.ClientState) error {
 	// Get appropriate database (user or role mailbox)
 	targetDB, _, err := deps.GetSelectedDB(state)
 	if err != nil {
-		return
+		return nil
 	}
 
 	for _, uid := range uids {
@@ -46,8 +49,11 @@ func HandleFetchForUIDs(deps ServerDeps, conn net.Conn, tag string, uids []int, 
 		}
 
 		// Process this message using the same logic as handleFetch
-		processFetchForMessage(deps, conn, messageID, int64(uid), seqNum, flags.String, items, state)
+		if err := processFetchForMessage(deps, conn, messageID, int64(uid), seqNum, flags.String, items, state); err != nil {
+			return err
+		}
 	}
+	return nil
 }
 
 func HandleFetch(deps ServerDeps, conn net.Conn, tag string, parts []string, state *models.ClientState) {
@@ -180,19 +186,26 @@ func HandleFetch(deps ServerDeps, conn net.Conn, tag string, parts []string, sta
 		}
 
 		// Process this message
-		processFetchForMessage(deps, conn, messageID, uid, seqNum, flags, items, state)
+		if err := processFetchForMessage(deps, conn, messageID, uid, seqNum, flags, items, state); err != nil {
+			log.Printf("FETCH failed for message %d: %v", messageID, err)
+			deps.SendResponse(conn, fmt.Sprintf("%s NO [SERVERBUG] FETCH failed: message data could not be read", tag))
+			return
+		}
 		seqNum++
 	}
 
 	deps.SendResponse(conn, fmt.Sprintf("%s OK FETCH completed", tag))
 }
 
-// processFetchForMessage processes a single message for FETCH/UID FETCH
-func processFetchForMessage(deps ServerDeps, conn net.Conn, messageID, uid int64, seqNum int, flags, items string, state *models.ClientState) {
+// processFetchForMessage processes a single message for FETCH/UID FETCH.
+// It returns an error, and sends nothing for this message, when message data
+// that was asked for cannot be read (e.g. a blob in S3 is unavailable): the
+// caller must fail the command instead of presenting the data as empty.
+func processFetchForMessage(deps ServerDeps, conn net.Conn, messageID, uid int64, seqNum int, flags, items string, state *models.ClientState) error {
 	// Get appropriate database (user or role mailbox)
 	targetDB, _, err := deps.GetSelectedDB(state)
 	if err != nil {
-		return
+		return nil
 	}
 
 	// Lazy-load the full reconstructed message only when needed
@@ -364,27 +377,12 @@ func processFetchForMessage(deps ServerDeps, conn net.Conn, messageID, uid int64
 							payload = extractBodySectionByPath(fullMsg, partPath)
 						} else {
 							// Part body only - for non-multipart parts
-							if blobID, ok := target["blob_id"].(int64); ok {
-								// Get shared database for blob retrieval (blobs are now in shared DB)
-								sharedDB := deps.GetSharedDB()
-
-								// Try local storage first
-								if content, err := db.GetBlob(sharedDB, blobID); err == nil && content != "" {
-									payload = content
-								} else {
-									// Try S3 storage
-									s3Storage := deps.GetS3Storage()
-									if s3Storage != nil && s3Storage.IsEnabled() {
-										if s3BlobID, storageType, err := db.GetBlobS3BlobID(sharedDB, blobID); err == nil && storageType == "s3" && s3BlobID != "" {
-											if content, err := s3Storage.Retrieve(s3BlobID); err == nil {
-												payload = content
-											}
-										}
-									}
-								}
-							} else if textContent, ok := target["text_content"].(string); ok {
-								payload = textContent
+							// (blobs are in the shared DB or in S3)
+							content, err := parser.ReadPartContent(deps.GetSharedDB(), target, deps.GetS3Storage())
+							if err != nil {
+								return err
 							}
+							payload = content
 						}
 					}
 
@@ -591,12 +589,18 @@ func processFetchForMessage(deps ServerDeps, conn net.Conn, messageID, uid int64
 		responseParts = append(responseParts, literalPart(label, msg))
 	}
 
+	// The message could not be reconstructed: every item taken from it is wrong
+	if rawMsgErr != nil {
+		return rawMsgErr
+	}
+
 	if len(responseParts) > 0 {
 		responseStr := fmt.Sprintf("* %d FETCH (%s)", seqNum, strings.Join(responseParts, " "))
 		deps.SendResponse(conn, responseStr)
 	} else {
 		deps.SendResponse(conn, fmt.Sprintf("* %d FETCH (FLAGS ())", seqNum))
 	}
+	return nil
 }
 
 // asciiUpper upper-cases the ASCII letters of s and leaves every other byte
